@@ -116,7 +116,7 @@ func runC16Arith(tier string, seed uint64, idx int) core.Result {
 		_, info := before.Clone().Apply(reqCopy.CloneVT(), 0, nil)
 		exp, resp, ok := h.step(req)
 		if !ok {
-			if info.SeqOverflow || atMaxInvolved(h.M, reqCopy) {
+			if info.SeqOverflow || atMaxInvolved(h.M, reqCopy) || atMaxInvolved(before, reqCopy) {
 				// re-label: the mismatch is the known arithmetic limit, not a new kind of disagreement
 				sig, what := "C16/seq-key/overflow-wraps", "suffix + delta exceeds 2^64-1: the generated key wraps around and is not greater than the existing keys"
 				if !info.SeqOverflow {
